@@ -26,6 +26,8 @@
    run() computes the least / stratified model; the plan of every accepted generated program is validated there. *)
 From Coq Require Import List Bool Arith Relations.
 From AV Require Import Check.CheckModel Check.CheckProofs Check.CheckExamples.
+From AV Require Import Check.PatCtxModel.
+From AV Require Import Check.PatCtxLaws.
 Import ListNotations.
 
 (* acceptance is sound: an accepted program exhibits none of the violations, at any position *)
@@ -211,3 +213,51 @@ Print Assumptions c15_attribute_rejection_sound. Print Assumptions c15_relation_
 Print Assumptions c15_attribute_positions. Print Assumptions c15_pattern_vars_sound.
 Print Assumptions c15_pattern_vars_complete_with_paren_arm. Print Assumptions c15_pattern_vars_complete_paren_free.
 Print Assumptions c15_rebinding_rejected_refuted_before_fix. Print Assumptions c15_pattern_helper_complete. Print Assumptions c15_rebinding_through_parentheses.
+
+(* ------------------------------------------------------------------ patterns in full, every constructor as a context
+   Check/PatCtxModel.v: [xpat] has one constructor per arm of pattern_get_vars that recurses (x @ p, (p), &p, tuple, slice,
+   tuple struct, struct, or-pattern, p : T); [xpat_vars] mirrors the helper arm by arm (or-pattern = the variables reported
+   for every alternative), [binds] is the specification (what the Rust pattern binds), a context [c] is a stack of frames —
+   one frame per recursive constructor — around one hole, [frame_ok u] asks of an or-frame that the other alternatives
+   bind u too (Rust demands it).  p_rebind f bs:  path(x, y) <-- edge(x, y), B   where B is the binder position f
+   (let / if let / for / agg / ?pattern argument / let or if let attached to a clause) whose pattern reports bs. *)
+
+(* the helper reports exactly what a pattern binds (eqb: the equality of identifiers) *)
+Theorem c15_pattern_vars_full_spec : forall V (eqb : V -> V -> bool), (forall a b, eqb a b = true <-> a = b) ->
+  forall p x, In x (xpat_vars eqb true p) <-> binds x p.
+Proof. exact xpat_vars_spec. Qed.
+(* the model of the theorems above (CheckModel.pat, pat_vars) is the restriction of this one *)
+Theorem c15_pattern_vars_embed : forall V (eqb : V -> V -> bool) b (p : pat V), xpat_vars eqb b (embed p) = pat_vars b p.
+Proof. exact xpat_vars_embed. Qed.
+(* a variable below ANY stack of pattern constructors is reported *)
+Theorem c15_variable_below_any_context_reported : forall V (eqb : V -> V -> bool), (forall a b, eqb a b = true <-> a = b) ->
+  forall x (c : list (frame V)), Forall (frame_ok x) c -> In x (xpat_vars eqb true (plug c (XVar x))).
+Proof. exact hole_reported_below_any_context. Qed.
+(* hence binding x or y again below any context, in any binder position, under any macro, is rejected with the shadowing
+   error about a variable the pattern binds ... *)
+Theorem c15_rebinding_below_any_context_rejected : forall f c k u, In u [x; y] -> Forall (frame_ok u) c ->
+  exists u', check [] (p_rebind f (xv (plug c (XVar u)))) k = Reject (EShadow u') /\ binds u' (plug c (XVar u)).
+Proof. exact rebinding_below_any_context_rejected. Qed.
+(* ... and so is binding again, by a plain `let`, a variable whose FIRST binder sits below any context (the other
+   variables of that pattern being new and distinct) *)
+Theorem c15_first_binder_below_any_context_rejected : forall f c k u, Forall (frame_ok u) c ->
+  NoDup (xv (plug c (XVar u))) -> (forall u', binds u' (plug c (XVar u)) -> ~ In u' [x; y; z]) ->
+  check [] (p_rebind_first f (xv (plug c (XVar u))) u) k = Reject (EShadow u).
+Proof. exact first_binder_below_any_context_rejected. Qed.
+(* computed: all 183 contexts of depth <= 2 over 13 frames (each recursive constructor at least once) x 7 binder positions
+   x 4 macros: x bound again is rejected naming x; a first binder below the context is seen by the later `let`; a NEW
+   variable below the same contexts is accepted *)
+Example c15_contexts_depth2 :
+  length (sample_ctxs x) = 183 /\
+  for_all_samples x (fun f bs k => is_shadow x (check [] (p_rebind f bs) k)) = true /\
+  for_all_samples wc (fun f bs k => is_shadow wc (check [] (p_rebind_first f bs wc) k)) = true /\
+  for_all_samples wc (fun f bs k => is_accept (check [] (p_rebind f bs) k)) = true.
+Proof. exact sample_ctxs_verdicts. Qed.
+Example c15_at_subpattern_reported : xv (XAt wa (XTupleStruct [XVar x])) = [wa; x] /\ xv (XAt wa (XAt wb (XVar x))) = [wa; wb; x] /\
+  xv (XOr [XAt wa (XVar x); XTuple [XVar x; XVar wa]; XVar wb]) = [] /\ xv (XOr [XAt wa (XVar x); XTuple [XVar x; XVar wa]]) = [wa; x].
+Proof. exact at_subpattern_reported. Qed.
+
+Print Assumptions c15_pattern_vars_full_spec. Print Assumptions c15_pattern_vars_embed.
+Print Assumptions c15_variable_below_any_context_reported. Print Assumptions c15_rebinding_below_any_context_rejected.
+Print Assumptions c15_first_binder_below_any_context_rejected. Print Assumptions c15_contexts_depth2.
+Print Assumptions c15_at_subpattern_reported.
